@@ -7,6 +7,7 @@ CONSTANTS
   MaxInner = 0
   Boxes = {}
   KConv = 1000000
+  KConvX = 1000
 INVARIANTS TypeOK Protocol Descent ReportConsistent Budget FeasibleAlways Bracketed Converged
 POSTCONDITION TraceAccepted
 CHECK_DEADLOCK FALSE
